@@ -477,7 +477,8 @@ var c05OpBag = func() []string {
 
 var c05Modes = []os.FileMode{0o644, 0o600, 0o755, 0o700, 0o444, 0, 0o777, 0o755 | os.ModeSetuid, 0o775 | os.ModeSetgid, 0o777 | os.ModeSticky}
 var c05Flags = []int{os.O_RDONLY, os.O_WRONLY | os.O_CREATE, os.O_RDWR | os.O_CREATE | os.O_EXCL, os.O_WRONLY | os.O_TRUNC,
-	os.O_WRONLY | os.O_CREATE | os.O_TRUNC, os.O_RDWR, os.O_WRONLY, os.O_RDWR | os.O_CREATE}
+	os.O_WRONLY | os.O_CREATE | os.O_TRUNC, os.O_RDWR, os.O_WRONLY, os.O_RDWR | os.O_CREATE,
+	os.O_RDONLY | os.O_TRUNC, os.O_RDWR | os.O_TRUNC, os.O_RDONLY | os.O_CREATE, os.O_RDONLY | os.O_CREATE | os.O_TRUNC, os.O_WRONLY | os.O_APPEND} // (Linux truncates on O_RDONLY|O_TRUNC)
 var c05GlobComps = []string{"a", "b", "c", "d", "*", "*", "?", "[ab]", "[b-d]", "a*", "\\a", "\\b", "\\*"}
 var c05TargetsRel = []string{"a", "b", "a/b", "../b", "d", "nowhere", "", "c"}
 var c05TargetsAbs = []string{"$R/a", "$R/b", "$R/a/b", "$R/d", "$R/a/d"}
